@@ -1279,7 +1279,7 @@ func (repo *Repository) load(ctx context.Context, depth int) error {
 }
 
 func (repo *Repository) loadBranchHashHeights(ctx context.Context, branch *Branch) {
-	height := branch.parentHeight + 1
+	height := branch.parentHeight + branch.offset // lowest height held in memory (the part below may be pruned)
 	for _, headerData := range branch.headers {
 		repo.heights[headerData.Hash] = height
 		height++
